@@ -15,6 +15,7 @@ import os
 import pathlib
 
 import pvl
+import pvl.new
 
 from .. import core, gen, chan, dialects, iosim
 from ..core import Property, RunOut, Violation
@@ -128,7 +129,8 @@ class C09(Property):
         "probe.dump-binary-stream", "probe.dump-path", "probe.dump-enospc",
         "probe.real-file-object",
         "probe.pre-advanced-text-with-late-binary",
-        "probe.byte-order-mark", "probe.encoding-argument"]
+        "probe.byte-order-mark", "probe.encoding-argument",
+        "probe.pvl-new-entry-points"]
 
     # ---- one load through one entry point
     def load_entry(self, case, entry, knobs, st):
@@ -143,18 +145,20 @@ class C09(Property):
         else:
             kw["parser"] = dialects.make_parser(cfg, lex)
         nchars = len(label) + len(data) // 300 + 200
+        # the same entry points of the documented pvl.new module
+        P = pvl.new if case.get("api") == "new" else pvl
         if entry in ("path-str", "pathlike", "url"):
             p = iosim.SCRATCH.put(data)
             if knobs.get("encoding"):
                 kw = dict(kw, encoding=knobs["encoding"])
             if entry == "path-str":
-                fn = lambda: pvl.load(p, **kw)
+                fn = lambda: P.load(p, **kw)
             elif entry == "pathlike":
                 arg = pathlib.Path(p) if knobs.get("pathlib", True) \
                     else FsPath(p)
-                fn = lambda: pvl.load(arg, **kw)
+                fn = lambda: P.load(arg, **kw)
             else:
-                fn = lambda: pvl.loadu("file://" + p, **kw)
+                fn = lambda: P.loadu("file://" + p, **kw)
             return core.guarded(fn, nchars), None
         if entry in ("text-stream", "binary-stream") and knobs.get(
                 "realfile"):
@@ -172,7 +176,7 @@ class C09(Property):
                     if not got:
                         break
                     left -= len(got)
-                return core.guarded(lambda: pvl.load(f, **kw), nchars), None
+                return core.guarded(lambda: P.load(f, **kw), nchars), None
             finally:
                 f.close()
         if entry in ("text-stream", "binary-stream"):
@@ -197,12 +201,12 @@ class C09(Property):
                     if not got:
                         break
                     left -= len(got)
-            return core.guarded(lambda: pvl.load(f, **kw), nchars), raw
+            return core.guarded(lambda: P.load(f, **kw), nchars), raw
         if entry == "str":
             s = label + data[len(label.encode()):].decode("latin-1")
-            return core.guarded(lambda: pvl.loads(s, **kw), nchars), None
+            return core.guarded(lambda: P.loads(s, **kw), nchars), None
         if entry == "bytes":
-            return core.guarded(lambda: pvl.loads(data, **kw), nchars), None
+            return core.guarded(lambda: P.loads(data, **kw), nchars), None
         raise ValueError(entry)
 
     def check_load(self, case, entry, knobs, out=None):
@@ -423,10 +427,14 @@ class C09(Property):
             out.inc("probe.tail-undecodable")
         if tail_kind.startswith("long-run"):
             out.inc("probe.tail-long-run")
-        ref = describe(dialects.load(cfg, label))
+        api_new = cfg == "default" and rng.random() < 0.1
+        ref = describe(dialects.load("new" if api_new else cfg, label))
         out.evals += 1
         case = {"label": label, "data_hex": data.hex(), "config": cfg,
                 "ref": core.listify(ref)}
+        if api_new:
+            case["api"] = "new"
+            out.inc("probe.pvl-new-entry-points")
         out.log.ev("stored", cfg, label, tail_kind, len(tail))
         if tail:
             out.nontrivial = True
@@ -508,7 +516,7 @@ class C09(Property):
                 if entry == "pathlike" and rng.random() < 0.4:
                     knobs["pathlib"] = False
                 if entry in ("path-str", "pathlike") and label.isascii() \
-                        and rng.random() < 0.3:
+                        and rng.random() < 0.3 and not api_new:
                     # the documented encoding= argument; for an ASCII label
                     # none of these may change what is loaded
                     knobs["encoding"] = rng.choice(["utf-8", "latin-1",
@@ -587,8 +595,10 @@ class C09(Property):
             if not nl.strip():
                 continue
             st0 = chan.ChanStats()
-            ref = describe(dialects.load(case.get("config", "default"), nl,
-                                         chan.make_lexer_fn([], st0)))
+            ref = describe(dialects.load(
+                "new" if case.get("api") == "new" else
+                case.get("config", "default"), nl,
+                chan.make_lexer_fn([], st0)))
             if ref[0] != "ok" or (tail and not st0.end_seen):
                 continue        # the premise (an END statement) must stay
             yield dict(case, label=nl, data_hex=(nl.encode() + tail).hex(),
